@@ -18,37 +18,50 @@
 (*                                packets are unacknowledged, or one has   *)
 (*                                arrived out of order (13.2.1), the ACK   *)
 (*                                goes out without waiting for the timer   *)
-(*                                (RFC 9000 13.2.2; not judged when the    *)
-(*                                ACK_FREQUENCY extension moves the        *)
-(*                                threshold)                               *)
+(*                                (RFC 9000 13.2.2); an ACK_FREQUENCY      *)
+(*                                request of the peer moves the threshold, *)
+(*                                the delay and the reordering rule, an    *)
+(*                                IMMEDIATE_ACK frame asks for it at once  *)
+(*   AckFrequencySequenceNotIncreasing   ACK_FREQUENCY frames are numbered  *)
+(*                                consecutively, retransmissions included  *)
 (***************************************************************************)
 EXTENDS Naturals, Integers, Sequences, FiniteSets, TLC, Json, IOUtils
 
 Rec == ndJsonDeserialize(IOEnv.TRACE)
 N == Len(Rec)
-VARIABLES l, bad, rcvd, fresh, due, cnt, imm, lae, um, mad, who, late, ackfreq, deviations, cur
-vars == <<l, bad, rcvd, fresh, due, cnt, imm, lae, um, mad, who, late, ackfreq, deviations, cur>>
+VARIABLES l, bad, rcvd, fresh, due, cnt, imm, lae, um, afp, afs, mad, who, late, ackfreq, deviations, cur
+vars == <<l, bad, rcvd, fresh, due, cnt, imm, lae, um, afp, afs, mad, who, late, ackfreq, deviations, cur>>
 e == Rec[l]
 Is(k) == l <= N /\ e.ev = k
 Flag(c, name) == IF c THEN {} ELSE {name}
 At(f, a, d) == IF a \in DOMAIN f THEN f[a] ELSE d
 Set(f, a, v) == IF a \in DOMAIN f THEN [f EXCEPT ![a] = v] ELSE f @@ (a :> v)
 Slack == 5000
+\* what the peer has asked for with ACK_FREQUENCY frames (draft-ietf-quic-ack-frequency): the frame with
+\* the highest sequence number counts; threshold 1, the advertised max_ack_delay (mad -1) and
+\* reordering threshold 1 until the first one; unk: a frame sat in a datagram that was only partly
+\* processed, so what is in force is not known any more
+AfDefault == [seq |-> -1, th |-> 1, mad |-> -1, ro |-> 1, unk |-> FALSE]
+RECURSIVE FoldAf(_, _, _)
+FoldAf(a, fs, i) == IF i > Len(fs) THEN a
+                    ELSE FoldAf(IF fs[i][1] > a.seq THEN [a EXCEPT !.seq = fs[i][1], !.th = fs[i][2], !.mad = fs[i][3], !.ro = fs[i][4]] ELSE a,
+                                fs, i + 1)
 
-TInit == /\ l = 1 /\ bad = {} /\ rcvd = <<>> /\ fresh = <<>> /\ due = <<>> /\ cnt = <<>> /\ imm = <<>> /\ lae = <<>> /\ um = <<>> /\ mad = <<>> /\ who = <<>>
+TInit == /\ l = 1 /\ bad = {} /\ rcvd = <<>> /\ fresh = <<>> /\ due = <<>> /\ cnt = <<>> /\ imm = <<>> /\ lae = <<>> /\ um = <<>> /\ afp = <<>> /\ afs = <<>> /\ mad = <<>> /\ who = <<>>
          /\ late = 0 /\ ackfreq = FALSE /\ deviations = {} /\ cur = <<0>>
-Reset == /\ Is("Reset") /\ bad' = {} /\ rcvd' = <<>> /\ fresh' = <<>> /\ due' = <<>> /\ cnt' = <<>> /\ imm' = <<>> /\ lae' = <<>> /\ um' = <<>> /\ mad' = <<>> /\ who' = <<>>
+Reset == /\ Is("Reset") /\ bad' = {} /\ rcvd' = <<>> /\ fresh' = <<>> /\ due' = <<>> /\ cnt' = <<>> /\ imm' = <<>> /\ lae' = <<>> /\ um' = <<>> /\ afp' = <<>> /\ afs' = <<>> /\ mad' = <<>> /\ who' = <<>>
          /\ late' = e.late /\ ackfreq' = e.ackfreq /\ deviations' = {} /\ cur' = <<e.run>> /\ l' = l + 1
 
 Mad == /\ Is("Mad") /\ mad' = Set(mad, <<e.n, e.c>>, e.mad) /\ bad' = bad /\ l' = l + 1
-       /\ UNCHANGED <<rcvd, fresh, due, cnt, imm, lae, um, who, late, ackfreq, deviations, cur>>
+       /\ UNCHANGED <<rcvd, fresh, due, cnt, imm, lae, um, afp, afs, who, late, ackfreq, deviations, cur>>
 Conn == /\ Is("Conn") /\ who' = Set(who, <<e.n, e.c>>, e.uid) /\ bad' = bad /\ l' = l + 1
         /\ due' = Set(due, e.uid, -1) /\ fresh' = Set(fresh, e.uid, {})
         /\ cnt' = Set(cnt, e.uid, 0) /\ imm' = Set(imm, e.uid, -1) /\ lae' = Set(lae, e.uid, -1) /\ um' = Set(um, e.uid, -1)
+        /\ afp' = Set(afp, e.uid, AfDefault) /\ afs' = Set(afs, e.uid, -1)
         /\ UNCHANGED <<rcvd, mad, late, ackfreq, deviations, cur>>
 
 \* an acknowledgement owed since `due` has not been sent although its time is up
-Overdue(u, t, m) == At(due, u, -1) # -1 /\ ~ackfreq /\ t > At(due, u, -1) + m + late + Slack
+Overdue(u, t, m) == At(due, u, -1) # -1 /\ t > At(due, u, -1) + m + late + Slack
 
 RECURSIVE AddAll(_, _, _, _)
 AddAll(f, u, pks, i) == IF i = 0 THEN f
@@ -93,12 +106,18 @@ Rcv ==
               um1 == IF judged \/ dpn = {} THEN At(um, u, -1)
                      ELSE LET m == CHOOSE x \in dpn : \A y \in dpn : y <= x IN IF m > At(um, u, -1) THEN m ELSE At(um, u, -1)
               known == At(lae, u, -1) >= um1
+              a0 == At(afp, u, AfDefault)
+              a1 == IF e.all THEN FoldAf(a0, e.af, 1) ELSE IF Len(e.af) > 0 THEN [a0 EXCEPT !.unk = TRUE] ELSE a0
+              \* more ack-eliciting packets than the threshold in force, one out of order (with the
+              \* plain reordering rule in force), or an IMMEDIATE_ACK frame
+              now == ~a1.unk /\ (k >= a1.th + 1 \/ (judged /\ known /\ o[2] /\ a1.ro = 1) \/ (judged /\ e.immf))
           IN /\ cnt' = Set(cnt, u, k)
              /\ lae' = IF judged THEN Set(lae, u, o[1]) ELSE lae
              /\ um' = Set(um, u, um1)
-             /\ imm' = IF (k >= 2 \/ (judged /\ known /\ o[2])) /\ At(imm, u, -1) = -1 THEN Set(imm, u, e.t) ELSE imm
+             /\ afp' = Set(afp, u, a1)
+             /\ imm' = IF now /\ At(imm, u, -1) = -1 THEN Set(imm, u, e.t) ELSE imm
        /\ bad' = bad
-  /\ l' = l + 1 /\ UNCHANGED <<mad, who, late, ackfreq, deviations, cur>>
+  /\ l' = l + 1 /\ UNCHANGED <<afs, mad, who, late, ackfreq, deviations, cur>>
 
 RangesReceived(u, a) == \A i \in 1 .. Len(a.ranges) :
                           (a.ranges[i][1] .. a.ranges[i][2]) \subseteq At(rcvd, <<u, a.sp>>, {})
@@ -112,11 +131,14 @@ Snd ==
        /\ bad' = bad
             \cup Flag(\A i \in 1 .. Len(e.acks) : RangesReceived(u, e.acks[i]), "AckedPacketNeverReceived")
             \cup Flag(e.ackonly => \E i \in 1 .. Len(e.acks) : e.acks[i].sp \in At(fresh, u, {}), "AckOnlyAnsweredByAckOnly")
+            \* every ACK_FREQUENCY frame (a retransmission too) carries the next sequence number
+            \cup Flag(\A i \in 1 .. Len(e.afs) : e.afs[i] = At(afs, u, -1) + i, "AckFrequencySequenceNotIncreasing")
+       /\ afs' = Set(afs, u, At(afs, u, -1) + Len(e.afs))
        /\ fresh' = IF hasAck THEN Set(fresh, u, At(fresh, u, {}) \ {e.acks[i].sp : i \in 1 .. Len(e.acks)}) ELSE fresh
        /\ due' = IF dataAck \/ ~e.est THEN Set(due, u, -1) ELSE due
        /\ cnt' = IF dataAck \/ ~e.est THEN Set(cnt, u, 0) ELSE cnt
        /\ imm' = IF dataAck \/ ~e.est THEN Set(imm, u, -1) ELSE imm
-  /\ l' = l + 1 /\ UNCHANGED <<rcvd, lae, um, mad, who, late, ackfreq, deviations, cur>>
+  /\ l' = l + 1 /\ UNCHANGED <<rcvd, lae, um, afp, mad, who, late, ackfreq, deviations, cur>>
 
 \* KNOWN FINDING: poll_transmit decides per packet whether it will be ack-eliciting from what is
 \* queued; with stream data queued and the congestion window full (or the pacer not ready) it sends
@@ -127,8 +149,10 @@ Snd ==
 Tick ==
   /\ Is("Tick")
   /\ LET u == At(who, <<e.n, e.c>>, -1)
-         overdue == u # -1 /\ e.est /\ Overdue(u, e.t, At(mad, <<e.n, e.c>>, 25000))
-         atOnce == u # -1 /\ e.est /\ ~ackfreq /\ At(imm, u, -1) # -1 /\ e.t > At(imm, u, -1) + late + Slack
+         a == At(afp, u, AfDefault)
+         m == IF a.mad # -1 THEN a.mad ELSE At(mad, <<e.n, e.c>>, 25000)
+         overdue == u # -1 /\ e.est /\ ~a.unk /\ Overdue(u, e.t, m)
+         atOnce == u # -1 /\ e.est /\ ~a.unk /\ At(imm, u, -1) # -1 /\ e.t > At(imm, u, -1) + late + Slack
      IN
        /\ bad' = bad \cup Flag(~overdue \/ e.cb, "AckWithheld")
                       \cup Flag(~atOnce \/ e.cb, "SecondPacketNotAcknowledgedAtOnce")
@@ -136,7 +160,7 @@ Tick ==
        /\ due' = IF u # -1 /\ (~e.est \/ overdue) THEN Set(due, u, -1) ELSE due
        /\ cnt' = IF u # -1 /\ (~e.est \/ atOnce) THEN Set(cnt, u, 0) ELSE cnt
        /\ imm' = IF u # -1 /\ (~e.est \/ atOnce) THEN Set(imm, u, -1) ELSE imm
-  /\ l' = l + 1 /\ UNCHANGED <<rcvd, fresh, lae, um, mad, who, late, ackfreq, cur>>
+  /\ l' = l + 1 /\ UNCHANGED <<rcvd, fresh, lae, um, afp, afs, mad, who, late, ackfreq, cur>>
 
 TNext == (Reset \/ Mad \/ Conn \/ Rcv \/ Snd \/ Tick)
          /\ (deviations' \subseteq deviations
